@@ -42,7 +42,7 @@ r = vlib.validate_batch("MuxTrace", "MuxTrace", bad)
 report("the same trace with one read offset changed is rejected", len(r["failures"]) == 1 and r["failures"][0]["line_in_trace"] == i + 1)
 
 # 3. negative-control models must fail
-for mod, cfg in (("MC_Live", "MC_Live_pinned"), ("WriterWake", "MC_Wake_pinned"), ("Keepalive", "MC_Keepalive_f12"), ("MC_Mux", "MC_Reuse_kf"), ("MC_Mux", "MC_Close_orphan")):
+for mod, cfg in (("MC_Live", "MC_Live_pinned"), ("WriterWake", "MC_Wake_pinned"), ("Keepalive", "MC_Keepalive_f12"), ("MC_Mux", "MC_Reuse_kf"), ("MC_Mux", "MC_Close_orphan"), ("MC_Mux", "MC_TeardownLive_nofair")):
     r = vlib.model_check(mod, cfg, workers=4, timeout=600, coverage=False)
     report(f"negative control {cfg} is violated", not r["ok"], str(r["violated"]))
 print("SELFTEST", "OK" if ok else "FAILED")
